@@ -299,6 +299,24 @@ func TestC11(t *testing.T) {
 			hi = len(want)
 		}
 		w["input_around_diff"] = string(want[lo:hi])
-		r.Violation("ast.roundtrip-mismatch", fmt.Sprintf("%s at a %s of the input", how, byteClass(want, d)), c.id, w)
+		// name the first token at or after the difference (trivia before it is skipped)
+		cls := classifyBytes(want)
+		j := d
+		for j < len(want) && (cls[j] == "whitespace" || cls[j] == "line-comment" || cls[j] == "block-comment") {
+			j++
+		}
+		where := "the end of the input"
+		if j < len(want) {
+			where = "a " + cls[j]
+			if cls[j] == "punctuation" {
+				where += " " + string(want[j])
+			}
+			if j > d {
+				where = "the trivia before " + where
+			}
+		} else if d < len(want) {
+			where = "the trailing trivia"
+		}
+		r.Violation("ast.roundtrip-mismatch", fmt.Sprintf("%s at %s", how, where), c.id, w)
 	})
 }
